@@ -777,3 +777,196 @@ Example C02_session_multi_fdt_late_copies :
      = ([POk; POk; POk; POk; POk; POk; POk; POk; POk; POk; POk; POk; POk; POk], [], [7], [], [], 3%nat, delivered_log).
 Proof. exact mx_late_copies. Qed.
 (* ===== end block: C02MultiFdt ===== *)
+
+From FluteV Require Import Proofs.C09Full Proofs.C02MultiObj.
+(* ===== block: C02MultiObj ===== *)
+(* SEVERAL OBJECTS IN ONE SESSION (Proofs/C02MultiObj.v).
+   I1, isolation.  Whatever the receiver has been through (ANY event history from recv0 / ctx0), a packet of a TOI
+   t <> 0 then leaves every other TOI u alone: u's object entry, u's membership in rv_completed, u's builder counter,
+   the write counters and the calls of every writer (u, n) are unchanged; the log only grows, by events of t
+   (ev_toi e = t: builder call for t, calls of writers (t, n)); rv_fdt_receivers is unchanged; the instances of
+   rv_fdt_current only have their expiry re-evaluated at [now] (create_obj); the close-session flag is recorded.
+   The ONE cross-object effect is on rv_error (max_objects_error): when the object of t fails and the list is already
+   full, gc_error drops a prefix of the sorted list - the SMALLEST TOIs, whichever object failed
+   [C02_error_list_eviction_crosses_objects]; u can leave the list this way, never enter it.  (No object is dropped
+   by it: the error-listed TOIs have no entry in rv_objects - invariant EDisj, proved for every event.) *)
+Theorem C02_isolation : forall E parse_fdt cfg evs p now,
+  a_toi p <> 0 ->
+  let '(_, r, c) := recv_run E parse_fdt cfg recv0 evs ctx0 in
+  let '(_, r', c') := recv_step E parse_fdt cfg r (RvPush p now) c in
+  let t := a_toi p in
+  (forall u, u <> t ->
+     get_obj r' u = get_obj r u
+     /\ (In u (rv_completed r') <-> In u (rv_completed r))
+     /\ (In u (rv_error r') -> In u (rv_error r))
+     /\ ncalls c' u = ncalls c u
+     /\ forall n, wcount c' (u, n) = wcount c (u, n) /\ calls_of (u, n) (c_log c') = calls_of (u, n) (c_log c))
+  /\ filter (fun x => negb (x =? t)) (rv_completed r') = filter (fun x => negb (x =? t)) (rv_completed r)
+  /\ (exists k, filter (fun x => negb (x =? t)) (rv_error r') = skipn k (filter (fun x => negb (x =? t)) (rv_error r))
+                /\ (k <> 0%nat -> cf_max_err cfg <= N.of_nat (length (rv_error r))))
+  /\ (exists evs', c_log c' = c_log c ++ evs' /\ Forall (fun e => ev_toi e = t) evs')
+  /\ rv_fdt_receivers r' = rv_fdt_receivers r
+  /\ Forall2 (fun f f' => f' = f \/ f' = fr_update_expired f now) (rv_fdt_current r) (rv_fdt_current r')
+  /\ rv_closed r' = (rv_closed r || a_close_sess p)%bool.
+Proof. exact isolation_reachable. Qed.
+Print Assumptions C02_isolation.
+
+(* the object plane underneath: every function of Model/ObjRecv.v applied to an object of TOI t (whose writer, if any,
+   is a writer of t: OkO) from two contexts that agree on t (CSame t: builder counter of t, write counters of the
+   writers (t, n), events of t in the log) returns the same object and contexts that still agree on t, and changes
+   nothing of any other TOI (Fr t) - stated here for ObjectReceiver::push *)
+Theorem C02_object_plane_reads_only_its_toi : forall E t p o c cs,
+  OkO t o -> CSame t c cs ->
+  fst (or_push E p o c) = fst (or_push E p o cs)
+  /\ CSame t (snd (or_push E p o c)) (snd (or_push E p o cs))
+  /\ Fr t c (snd (or_push E p o c))
+  /\ OkO t (fst (or_push E p o c)).
+Proof. exact par_or_push. Qed.
+Print Assumptions C02_object_plane_reads_only_its_toi.
+
+(* the invariants I1 rests on hold in every reachable state *)
+Theorem C02_receiver_invariants : forall E parse_fdt cfg evs,
+  let '(_, r, c) := recv_run E parse_fdt cfg recv0 evs ctx0 in
+  RI r c /\ (forall u, In u (rv_error r) -> get_obj r u = None).
+Proof. exact receiver_invariants_reachable. Qed.
+Print Assumptions C02_receiver_invariants.
+
+(* I2: the session theorem C02_session_fdt_first_delivers for an object whose packets are interleaved with ARBITRARY
+   packets of other non-zero TOIs (nothing is assumed of them: other objects of the instance, objects it does not
+   list, damaged transfers, transfers that fail).  [filter ... pkts] = the packets of the object in their order of
+   arrival.  Conclusion multi_delivered (unfolded in C02_multi_delivered_statement): the calls of writer (toi,0) are
+   open . writes = content . complete; with receive-once and a cacheable object the object has left rv_objects, is in
+   rv_completed, not in rv_error, and the events of the TOI in the log are exactly builder/open/writes/complete.
+   No premise on max_objects_error: the object never enters rv_error before it is delivered, and what happens to
+   rv_error afterwards cannot touch writer (toi,0).  All packets carry the receiver time [now], as in the
+   single-object theorems (a packet of another object at a LATER time re-evaluates the expiry of the instance). *)
+Theorem C02_nocode_object_among_other_traffic : forall E parse_fdt cfg oti content toi md5 now pf id foti d inst pkts,
+  let L := lenN_ content in
+  nocode_ok oti L ->
+  fdt_pkt_ok pf id foti d -> parse_fdt d = Some inst -> fdt_live cfg inst pf now ->
+  fdt_entry_for (fi_files inst) (fi_oti inst) toi oti L md5 ->
+  writer_accepts E toi -> writes_succeed E toi -> md5_good E content md5 ->
+  L <= cf_max_cache cfg -> nb_blocks_of oti L <= 4097 ->
+  Forall (fun p => a_toi p <> 0) pkts ->
+  let mine := filter (fun p => a_toi p =? toi) pkts in
+  Forall (fun p => genuine_pkt oti content p = true) mine ->
+  close_flag_ok oti L mine ->
+  recoverable oti L mine = true ->
+  let '(_, r, c) := recv_run E parse_fdt cfg recv0 (map (fun p => RvPush p now) (pf :: pkts)) ctx0 in
+  multi_delivered cfg inst content toi r c.
+Proof. exact nocode_among_others_delivers. Qed.
+Print Assumptions C02_nocode_object_among_other_traffic.
+
+Theorem C02_multi_delivered_statement : forall cfg inst content toi r c,
+  multi_delivered cfg inst content toi r c <->
+  delivered_calls content (calls_of (toi, 0%nat) (c_log c))
+  /\ (forall m, complete_exact content (m, calls_of (toi, 0%nat) (c_log c)) = true)
+  /\ (cf_once cfg = true -> entry_nocache inst toi = false ->
+      get_obj r toi = None /\ In toi (rv_completed r) /\ ~ In toi (rv_error r)
+      /\ exists evs, filter (fun e => ev_toi e =? toi) (c_log c)
+                     = [EvBuilder toi WStore; EvOpen (toi, 0%nat) true] ++ evs ++ [EvComplete (toi, 0%nat)]
+                     /\ forallb (is_write (toi, 0%nat)) evs = true /\ wdata evs = content).
+Proof. exact multi_delivered_statement. Qed.
+Print Assumptions C02_multi_delivered_statement.
+
+(* the same for Reed-Solomon (FEC 5 / 129) and RaptorQ / Raptor objects, through the scheme-independent interface *)
+Theorem C02_rs_object_among_other_traffic : forall E parse_fdt cfg oti content rep toi md5 now pf id foti d inst pkts,
+  let L := lenN_ content in
+  rs_scheme_ok oti L -> rs_blocks_ok oti L -> toi <> 0 ->
+  fdt_pkt_ok pf id foti d -> parse_fdt d = Some inst -> fdt_live cfg inst pf now ->
+  fdt_entry_for (fi_files inst) (fi_oti inst) toi oti L md5 ->
+  writer_accepts E toi -> writes_succeed E toi -> md5_good E content md5 ->
+  rs_oracle_mds E oti content rep toi ->
+  rs_mem_need oti L <= cf_max_cache cfg -> nb_blocks_of oti L <= 4097 ->
+  Forall (fun p => a_toi p <> 0) pkts ->
+  let mine := filter (fun p => a_toi p =? toi) pkts in
+  Forall (fun p => rs_genuine_pkt oti content rep p = true) mine ->
+  rs_close_flag_ok oti L mine ->
+  rs_recoverable oti L mine = true ->
+  let '(_, r, c) := recv_run E parse_fdt cfg recv0 (map (fun p => RvPush p now) (pf :: pkts)) ctx0 in
+  multi_delivered cfg inst content toi r c.
+Proof. exact rs_among_others_delivers. Qed.
+Print Assumptions C02_rs_object_among_other_traffic.
+
+Theorem C02_fq_object_among_other_traffic : forall E parse_fdt cfg oti content enc toi md5 now pf id foti d inst pkts,
+  let L := lenN_ content in
+  fq_scheme_ok oti L -> fq_blocks_ok oti L -> toi <> 0 ->
+  fdt_pkt_ok pf id foti d -> parse_fdt d = Some inst -> fdt_live cfg inst pf now ->
+  fdt_entry_for (fi_files inst) (fi_oti inst) toi oti L md5 ->
+  writer_accepts E toi -> writes_succeed E toi -> md5_good E content md5 ->
+  fq_oracle_sound E oti content enc toi -> fq_oracle_complete E oti content enc toi ->
+  L <= cf_max_cache cfg -> nb_blocks_of oti L <= 4097 ->
+  Forall (fun p => a_toi p <> 0) pkts ->
+  let mine := filter (fun p => a_toi p =? toi) pkts in
+  Forall (fun p => fq_genuine_pkt oti content enc p = true) mine ->
+  Forall (fun p => fq_sized_pkt oti p = true) mine ->
+  fq_close_flag_ok oti L mine ->
+  fq_recoverable oti L mine = true ->
+  let '(_, r, c) := recv_run E parse_fdt cfg recv0 (map (fun p => RvPush p now) (pf :: pkts)) ctx0 in
+  multi_delivered cfg inst content toi r c.
+Proof. exact fq_among_others_delivers. Qed.
+Print Assumptions C02_fq_object_among_other_traffic.
+
+(* m No-Code objects announced by one FDT instance, distinct non-zero TOIs, each with the premises of the single-object
+   theorem ([nc_obj_ok], unfolded below) on ITS packets; the packets arrive in ANY interleaving ([Merge]: each
+   object's packets keep their order): EVERY object is delivered *)
+Theorem C02_nocode_session_multi_delivers : forall E parse_fdt cfg now pf id foti d inst objs pkts,
+  fdt_pkt_ok pf id foti d -> parse_fdt d = Some inst -> fdt_live cfg inst pf now ->
+  NoDup (map no_toi objs) -> Forall (nc_obj_ok E cfg inst) objs ->
+  Merge (map no_pkts objs) pkts ->
+  let '(_, r, c) := recv_run E parse_fdt cfg recv0 (map (fun p => RvPush p now) (pf :: pkts)) ctx0 in
+  Forall (fun o => multi_delivered cfg inst (no_content o) (no_toi o) r c) objs.
+Proof. exact nocode_session_multi_delivers. Qed.
+Print Assumptions C02_nocode_session_multi_delivers.
+
+Theorem C02_multi_statements :
+  (forall E cfg inst o, nc_obj_ok E cfg inst o <->
+     let L := lenN_ (no_content o) in
+     nocode_ok (no_oti o) L /\ no_toi o <> 0
+     /\ fdt_entry_for (fi_files inst) (fi_oti inst) (no_toi o) (no_oti o) L (no_md5 o)
+     /\ writer_accepts E (no_toi o) /\ writes_succeed E (no_toi o) /\ md5_good E (no_content o) (no_md5 o)
+     /\ L <= cf_max_cache cfg /\ nb_blocks_of (no_oti o) L <= 4097
+     /\ Forall (fun p => a_toi p = no_toi o) (no_pkts o)
+     /\ Forall (fun p => genuine_pkt (no_oti o) (no_content o) p = true) (no_pkts o)
+     /\ close_flag_ok (no_oti o) L (no_pkts o)
+     /\ recoverable (no_oti o) L (no_pkts o) = true)
+  /\ (forall ls, Forall (fun l => l = []) ls -> Merge ls [])
+  /\ (forall ls1 p l ls2 pkts, Merge (ls1 ++ l :: ls2) pkts -> Merge (ls1 ++ (p :: l) :: ls2) (p :: pkts))
+  (* an interleaving of lists with pairwise distinct TOIs gives each list back by filtering on its TOI *)
+  /\ (forall ls pkts, Merge ls pkts -> forall tois, NoDup tois ->
+        Forall2 (fun t l => Forall (fun p => a_toi p = t) l) tois ls ->
+        Forall2 (fun t l => filter (fun p => a_toi p =? t) pkts = l) tois ls /\ Forall (fun p => In (a_toi p) tois) pkts).
+Proof. exact multi_statements. Qed.
+Print Assumptions C02_multi_statements.
+
+(* non-vacuity: TOI 7 (5 bytes) and TOI 9 (3 bytes) announced by one instance, their packets (shuffled, duplicated)
+   interleaved; computed through recv_run, and by the theorem *)
+Example C02_two_objects_interleaved :
+  sess tm_parse (tx_cfg true false) (tx_fdt None :: tm_pkts)
+  = ([POk; POk; POk; POk; POk; POk; POk; POk; POk], [], [9; 7], [],
+     [EvBuilder 7 WStore; EvOpen (7, 0%nat) true; EvBuilder 9 WStore; EvOpen (9, 0%nat) true;
+      EvWrite (9, 0%nat) [10; 20; 30] true; EvComplete (9, 0%nat);
+      EvWrite (7, 0%nat) [1; 2; 3; 4] true; EvWrite (7, 0%nat) [5] true; EvComplete (7, 0%nat)]).
+Proof. vm_compute. reflexivity. Qed.
+
+Example C02_two_objects_by_theorem :
+  let '(_, r, c) := recv_run env_ok tm_parse (tx_cfg true false) recv0 (map (fun p => RvPush p 100%Z) (tx_fdt None :: tm_pkts)) ctx0 in
+  multi_delivered (tx_cfg true false) tm_inst ex_content 7 r c
+  /\ multi_delivered (tx_cfg true false) tm_inst tm_content9 9 r c.
+Proof. exact tm_session_by_theorem. Qed.
+
+(* the one cross-object effect: cf_max_err = 1, TOI 5 interrupted and error-listed; a later packet of TOI 5 is ignored
+   (first run) - unless a failing packet of TOI 7 came in between: gc_error evicts the smallest TOI (5), and the same
+   packet of TOI 5 re-creates the object and opens a second writer (5,1) (second run) *)
+Example C02_error_list_eviction_crosses_objects :
+  sess tg_parse (mk_rcfg 1 1000 false false)
+       [tx_fdt None; src_pkt 5 0 1 true [3; 4]; src_pkt 5 1 0 false [5]]
+  = ([POk; POk; POk], [], [], [5], [EvBuilder 5 WStore; EvOpen (5, 0%nat) true; EvInterrupted (5, 0%nat)])
+  /\ sess tg_parse (mk_rcfg 1 1000 false false)
+       [tx_fdt None; src_pkt 5 0 1 true [3; 4]; src_pkt 7 0 1 true [3; 4]; src_pkt 5 1 0 false [5]]
+  = ([POk; POk; POk; POk], [5], [], [7],
+     [EvBuilder 5 WStore; EvOpen (5, 0%nat) true; EvInterrupted (5, 0%nat);
+      EvBuilder 7 WStore; EvOpen (7, 0%nat) true; EvInterrupted (7, 0%nat);
+      EvBuilder 5 WStore; EvOpen (5, 1%nat) true]).
+Proof. exact error_list_eviction_crosses_objects. Qed.
+(* ===== end block: C02MultiObj ===== *)
